@@ -33,7 +33,7 @@ import struct
 
 from ..cfg import CFG, raises_only
 from ..model import DEX, AnalysisError, norm, parent, walk_no_nested
-from ..pathkit import (Ev, NotEvaluable, Opaque, Defs, reach, branch_edges, swallowed_by,
+from ..pathkit import (Ev, truths, NotEvaluable, Opaque, Defs, reach, branch_edges, swallowed_by,
                        non_catching_handlers, int_consts, order_points, exec_path, stmt_of,
                        run_mutants, rename_locals, flip_ifs, neq_to_not_eq)
 
@@ -229,7 +229,12 @@ class Core:
         for n in ast.walk(gi.node):
             if isinstance(n, ast.Call) and ast.unparse(n.func).endswith("Struct") and n.args and isinstance(n.args[0], ast.BinOp) \
                     and isinstance(n.args[0].op, ast.Add):
-                pref = getattr(self, "packer_prefix", {}).get(ast.unparse(n.args[0].left))
+                key = ast.unparse(n.args[0].left)
+                pref = getattr(self, "packer_prefix", {}).get(key)
+                if pref is None:
+                    # the accepting path was not found (already reported): fall back to the constants ever stored there
+                    vals = {d[1].value for d in Defs(pk.node).of(key) if d[0] == "assign" and isinstance(d[1], ast.Constant)}
+                    pref = vals.pop() if len(vals) == 1 else None
         self.packer_le = pref == "<"
         ctx.ob("endian/prefix", "DalvikPacker[fmt] is struct.Struct('<' + fmt) on the accepting path", self.packer_le,
                "prefix attribute constant on the accepting path: %r" % pref)
@@ -394,6 +399,19 @@ class Core:
             return self.m.imports.get(f.id) == ("zlib", "adler32")
         return False
 
+    def _tv(self, desc, G, env, calls):
+        """truth values of G.test at one abstract point, over all assignments of opaque atoms
+        (sub-expressions that mention no role holder and no adler32 call)"""
+        keys = set(env)
+
+        def atom_ok(e):
+            return not _mentions(e, keys) and not any(self._is_adler(n) for n in ast.walk(e))
+        out = []
+        for atoms, v in truths(G.test, env, calls, atom_ok):
+            d = desc + ("" if not atoms else " when " + ", ".join("`%s` is %s" % (k[:50], a) for k, a in atoms.items()))
+            out.append((d, v))
+        return out
+
     def _guard(self, role, label, G, evaluate_wrong, exc=("ValueError",)):
         """evaluate_wrong() -> list of (point description, bool arm)  for every wrong point.
         -> (ok, reason, raises)"""
@@ -436,11 +454,13 @@ class Core:
             ctx.check("guard/" + role, label, True, hdr, G.test, "", node=G,
                       detail="`if %s` raises %s for %s and lies on every path to the exit" % (norm(G.test)[:80], "/".join(exc), what_wrong))
             return G
-        uneval = [r for r in results if r[1] is None]
-        if uneval and not [r for r in results if r[1] is False]:
+        # a mention that cannot be evaluated only matters if it looks like a guard (has a raise in an arm)
+        uneval = [r for r in results if r[1] is None and any(isinstance(x, ast.Raise) for s in r[0].body + r[0].orelse for x in walk_no_nested(s))]
+        failing = [r for r in results if r[1] is False]
+        if uneval and not failing:
             raise AnalysisError("HeaderItem.__init__: the %s guard `%s` left the analysable fragment (%s)" % (role, norm(uneval[0][0].test)[:80], uneval[0][2]))
-        if results:
-            G, _, why, _ = [r for r in results if r[1] is False][0]
+        if failing:
+            G, _, why, _ = failing[0]
             ctx.check("guard/" + role, label, False, hdr, "if %s" % norm(G.test), "header guard on %s does not reject %s: %s" % (role, what_wrong, why), node=G)
         else:
             ctx.check("guard/" + role, label, False, hdr, "no guard on %s" % role,
@@ -456,7 +476,7 @@ class Core:
             out = []
             for n in range(0, HEADER_LEN):
                 env = {k: n for k in self.role["nbytes"]}
-                out.append(("a %d byte buffer" % n, Ev(env, [sc])(G.test)))
+                out += self._tv("a %d byte buffer" % n, G, env, [sc])
             return out
         self._decide("size", "buffer shorter than 0x70 bytes raises", self.role["nbytes"], ev_size, "buffers shorter than the 0x70 byte header")
 
@@ -470,7 +490,7 @@ class Core:
                             continue
                         mg = base[:pos] + bytes([v]) + base[pos + 1:]
                         env = {k: mg for k in self.role["magic"]}
-                        out.append(("magic %r" % mg, Ev(env, [sc])(G.test)))
+                        out += self._tv("magic %r" % mg, G, env, [sc])
             return out
         self._decide("magic", "wrong magic byte at positions 0,1,2,3,7 raises", self.role["magic"], ev_magic,
                      "a magic whose bytes 0-3 are not 'dex\\n'/'dey\\n' or whose byte 7 is not NUL")
@@ -491,8 +511,7 @@ class Core:
                     if a == c:
                         continue
                     env = {k: c for k in self.role["checksum"]}
-                    out.append(("adler32=0x%x, stored checksum=0x%x" % (a, c),
-                                Ev(env, [(self._is_adler, lambda call, ev, a=a: a), sc])(G.test)))
+                    out += self._tv("adler32=0x%x, stored checksum=0x%x" % (a, c), G, env, [(self._is_adler, lambda call, ev, a=a: a), sc])
             return out
         Gc = self._decide("checksum", "adler32 != stored checksum raises", self.role["checksum"], ev_cs, "a stored checksum different from the computed Adler-32")
         if Gc is not None:
@@ -506,7 +525,7 @@ class Core:
                 if v == HEADER_LEN or v > 0xFFFFFFFF:
                     continue
                 env = {k: v for k in self.role["header_size"]}
-                out.append(("header_size=0x%x" % v, Ev(env, [sc])(G.test)))
+                out += self._tv("header_size=0x%x" % v, G, env, [sc])
             return out
         self._decide("header_size", "header_size != 0x70 raises", self.role["header_size"], ev_hs, "every header_size other than 0x70")
 
@@ -829,10 +848,11 @@ def _wrap_try(pred):
     return tr
 
 
-def _replace_const(old, new):
+def _replace_const(old, new, where=lambda n: True):
     def tr(fn):
         done = 0
-        for n in walk_no_nested(fn):
+        roots = [x for x in walk_no_nested(fn) if where(x)]
+        for n in (y for r in roots for y in ast.walk(r)):
             if isinstance(n, ast.Constant) and n.value == old and not isinstance(n.value, bool):
                 n.value = new
                 done += 1
@@ -870,11 +890,11 @@ def thorough(ctx):
         mutants.append(("%s guard: test negated" % r, hdr, _negate(on(r))))
         mutants.append(("%s guard: deleted" % r, hdr, _delete(on(r))))
         mutants.append(("%s guard: wrapped in try/except Exception: pass" % r, hdr, _wrap_try(on(r))))
-    mutants.append(("checksum from offset+8", hdr, _replace_const(12, 8)))
-    mutants.append(("endian word read at 44", hdr, _replace_const(40, 44)))
-    mutants.append(("header_size compared with 0x74", hdr, _replace_const(0x70, 0x74)))
+    mutants.append(("checksum from offset+8", hdr, _replace_const(12, 8, lambda n: isinstance(n, ast.Call) and ast.unparse(n.func) == "read_at")))
+    mutants.append(("endian word read at 44", hdr, _replace_const(40, 44, lambda n: isinstance(n, ast.Call) and ast.unparse(n.func) == "read_at")))
+    mutants.append(("header_size compared with 0x74", hdr, _replace_const(0x70, 0x74, lambda n: isinstance(n, ast.If))))
     mutants.append(("DalvikPacker: else-raise -> warning", pk, _raise_to_pass(lambda n: True)))
-    mutants.append(("DalvikPacker: accepts 0x12345679 too", pk, _replace_const(0x78563412, 0x12345679)))
+    mutants.append(("DalvikPacker: accepts 0x12345679 instead", pk, _replace_const(0x12345678, 0x12345679)))
     mutants.append(("DalvikPacker call wrapped in try", hdr, _wrap_try(lambda s: "DalvikPacker(" in ast.unparse(s) and isinstance(s, ast.Assign))))
     mutants.append(("_load: HeaderItem moved after the map", load, _move_first_to_end(lambda s: "HeaderItem(" in ast.unparse(s))))
     mutants.append(("_load: HeaderItem wrapped in try", load, _wrap_try(lambda s: "HeaderItem(" in ast.unparse(s))))
